@@ -195,6 +195,11 @@ def deep_dump(element, seen=None, depth=0):
             return out
         out = {"<type>": type(element).__name__}
         for k, v in sorted(vars(element).items()):
+            # public configuration only (plus the property dictionary): a private memo that a later
+            # version of the library might keep is not part of "the element tree" - what it may not do
+            # is change equality, repr, the serialisers, verdicts or results, which are checked directly
+            if k.startswith("_") and k != "_properties":
+                continue
             out[k] = deep_dump(v, seen, depth + 1)
         return out
     if isinstance(element, dict):
